@@ -8,6 +8,7 @@ import (
 	"fmt"
 	"os"
 	"runtime/debug"
+	"sort"
 	"strings"
 	"sync/atomic"
 	"testing"
@@ -933,6 +934,15 @@ func (x *c10Ctx) call(fn string, f func()) bool {
 	return false
 }
 
+func c10SortedKeys(m map[string][]string) []string {
+	l := make([]string, 0, len(m))
+	for k := range m {
+		l = append(l, k)
+	}
+	sort.Strings(l)
+	return l
+}
+
 type c10GotRegion struct {
 	addr, length uint64
 	typ          uint32
@@ -1100,7 +1110,8 @@ func (x *c10Ctx) checkAll() {
 				x.viol("cmdline-not-absent", "GetBootCmdLine returned %d entries although the block has no command-line tag: %q", len(kv), kv)
 			}
 		} else {
-			for k, vals := range wantCmd.want {
+			for _, k := range c10SortedKeys(wantCmd.want) {
+				vals := wantCmd.want[k]
 				if wantCmd.free[k] {
 					continue
 				}
@@ -1131,7 +1142,12 @@ func (x *c10Ctx) checkAll() {
 				}
 				c10Count(run, "cmdline_entries_compared", 1)
 			}
+			gotKeys := make([]string, 0, len(kv))
 			for k := range kv {
+				gotKeys = append(gotKeys, k)
+			}
+			sort.Strings(gotKeys)
+			for _, k := range gotKeys {
 				if _, ok := wantCmd.want[k]; !ok && !wantCmd.free[k] {
 					x.viol("cmdline-extra-key", "command line %q: unexpected key %q (value %q)", wantCmd.text, k, kv[k])
 					break
@@ -1253,7 +1269,7 @@ func c10RunBlock(c *vlib.Case, run *vlib.Run, blk, str *vlib.Arena, b *c10Block)
 	if padded && rich && present >= 2 {
 		run.Nontrivial(vlib.NewFP().Bytes(ref).Bytes(b.strtab))
 	}
-	if run.WantSample() && padded && rich && len(ref) <= 400 {
+	if run.WantSample() && padded && rich && present >= 3 && len(ref) <= 700 {
 		run.Sample(map[string]interface{}{"tags": b.summary(), "block_bytes": len(ref), "block_hex_with_strtab_address_0": vlib.Hex(ref), "strtab": fmt.Sprintf("%q", b.strtab)})
 	}
 }
